@@ -228,6 +228,10 @@ struct Oracle<'a> {
     stray: Vec<Seen>,
     span_ids: Vec<(u64, String)>,
     found: Vec<(String, String)>,
+    /// program points that are never reached because a scripted panic unwinds past them
+    unwound: HashSet<(u32, Point)>,
+    n_panics_caught: u64,
+    n_spans_unwound: u64,
     // measurements
     n_reads: u64,
     n_span_events: u64,
@@ -351,6 +355,9 @@ impl<'a> Oracle<'a> {
             stray,
             span_ids: Vec::new(),
             found: Vec::new(),
+            unwound: HashSet::new(),
+            n_panics_caught: 0,
+            n_spans_unwound: 0,
             n_reads: 0,
             n_span_events: 0,
             n_events: 0,
@@ -377,6 +384,16 @@ impl<'a> Oracle<'a> {
     /// All reads at `(node, point)` must equal `want`.
     fn expect_reads(&mut self, node: u32, point: Point, want: &Ids, exactly_one: bool, sig: &str) -> Option<&'a Obs> {
         let v: Vec<&'a Obs> = self.obs.get(&(node, point)).cloned().unwrap_or_default();
+        if self.unwound.contains(&(node, point)) {
+            // a scripted panic unwinds past this point: it is never reached
+            if !v.is_empty() {
+                self.bad(
+                    "interpreter:point-reached-although-a-panic-unwinds-past-it".into(),
+                    format!("node {} point {:?}", node, point),
+                );
+            }
+            return None;
+        }
         if exactly_one && v.len() != 1 {
             self.bad(
                 format!("interpreter:point-read-{}-times", v.len().min(2)),
@@ -422,6 +439,13 @@ impl<'a> Oracle<'a> {
         };
         self.n_reads += 1;
         let k = kind(node);
+        if node.unwinds {
+            let last = (node.steps.len().max(1) - 1) as u16;
+            for p in [Point::Exit, Point::After(last), Point::ViaOut(last), Point::HopOut(last)] {
+                self.unwound.insert((node.id, p));
+            }
+            self.n_spans_unwound += 1;
+        }
         let inside = if is_span && node.enabled {
             self.n_enabled += 1;
             let got = enter.ids;
@@ -570,7 +594,7 @@ impl<'a> Oracle<'a> {
                         }
                     }
                 }
-                Step::Panic => unreachable!("not generated for C04"),
+                Step::Panic => {}
                 Step::Yield => {
                     if node.is_async {
                         self.expect_reads(node.id, Point::Resume(i), &inside.ids, true, &ambient_sig("after-yield"));
@@ -691,7 +715,20 @@ impl<'a> Oracle<'a> {
                             self.expect_reads(node.id, Point::ViaOut(i), &amb.ids, true, &format!("ambient-not-restored:after-child:inside-{}", vn));
                             amb
                         }
-                        Via::Header { .. } | Via::Remote | Via::Catch => unreachable!("not generated for C04"),
+                        Via::Catch => {
+                            // the panic that unwinds out of the span(s) below is caught right here; the
+                            // `After` read below must then show this node's ambient ids again, and whatever
+                            // follows (events, further children, the next root) is judged as usual
+                            match self.run.caught.iter().find(|(n, s, _)| *n == node.id && *s == i) {
+                                Some((_, _, true)) => self.n_panics_caught += 1,
+                                other => self.bad(
+                                    "interpreter:scripted-panic-not-caught".into(),
+                                    format!("node {} step {}: {:?}", node.id, i, other),
+                                ),
+                            }
+                            inside.clone()
+                        }
+                        Via::Header { .. } | Via::Remote => unreachable!("not generated for C04"),
                     };
                     let around = outer.ids;
                     self.walk_in(
@@ -898,6 +935,8 @@ fn eval<X: Env>(r: &mut Report, seed: u64, index: u64, tree: &Node) {
     r.observe("incoming-trace-id-without-usable-span-id", o.n_trace_only);
     r.observe("non-span-frames-with-own-props", o.n_plain);
     r.observe("new_span-pairs", o.n_manual);
+    r.observe("panics-unwound-and-caught", o.n_panics_caught);
+    r.observe("spans-and-frames-a-panic-unwound-through", o.n_spans_unwound);
     r.observe("rejected-span-frames-entered-away-from-creation", o.n_rejected_frames_travelled);
     r.observe("incoming-integer-ids-with-16-and-32-decimal-digits", o.n_decimal_looking);
     r.observe("group-tasks-inside-a-captured-frame", o.n_wrapped_members);
